@@ -143,7 +143,8 @@ func matchProp(filter PropFilter, field *ical.Prop) (bool, error) {
 func matchCompTimeRange(start, end time.Time, comp *ical.Component) (bool, error) {
 	// See https://datatracker.ietf.org/doc/html/rfc4791#section-9.9
 
-	rset, err := comp.RecurrenceSet(start.Location())
+	loc := rangeLocation(start, end)
+	rset, err := comp.RecurrenceSet(loc)
 	if err != nil {
 		return false, err
 	}
@@ -158,11 +159,11 @@ func matchCompTimeRange(start, end time.Time, comp *ical.Component) (bool, error
 		return false, nil
 	}
 
-	eventStart, err := event.DateTimeStart(start.Location())
+	eventStart, err := event.DateTimeStart(loc)
 	if err != nil {
 		return false, err
 	}
-	eventEnd, err := event.DateTimeEnd(end.Location())
+	eventEnd, err := event.DateTimeEnd(loc)
 	if err != nil {
 		return false, err
 	}
@@ -207,10 +208,21 @@ func matchEventTimeRange(start, end, eventStart, eventEnd time.Time, hasEnd bool
 	return start.IsZero() || !start.After(eventStart)
 }
 
+// rangeLocation returns the time zone in which floating times and dates are
+// read when they are compared with a time range: the zone of its start or,
+// when it has none, of its end. (A missing bound is the zero time, whose zone
+// is UTC whatever the zone of the other bound.)
+func rangeLocation(start, end time.Time) *time.Location {
+	if start.IsZero() {
+		return end.Location()
+	}
+	return start.Location()
+}
+
 func matchPropTimeRange(start, end time.Time, field *ical.Prop) (bool, error) {
 	// See https://datatracker.ietf.org/doc/html/rfc4791#section-9.9
 
-	ptime, err := field.DateTime(start.Location())
+	ptime, err := field.DateTime(rangeLocation(start, end))
 	if err != nil {
 		return false, err
 	}
